@@ -234,3 +234,39 @@ pub fn main_with(property: &str, f: impl FnOnce(&mut Run, &mut Rng)) {
     f(&mut run, &mut rng);
     run.write(&out).expect("write outputs");
 }
+
+/// Canonical JSON text: object keys sorted recursively (hash-map order must never show).
+pub fn canon_json(v: &serde_json::Value) -> String {
+    fn go(v: &serde_json::Value, out: &mut String) {
+        match v {
+            serde_json::Value::Object(m) => {
+                let mut keys: Vec<&String> = m.keys().collect();
+                keys.sort();
+                out.push('{');
+                for (i, k) in keys.iter().enumerate() {
+                    if i > 0 {
+                        out.push(',');
+                    }
+                    out.push_str(&serde_json::to_string(k).unwrap());
+                    out.push(':');
+                    go(&m[*k], out);
+                }
+                out.push('}');
+            }
+            serde_json::Value::Array(a) => {
+                out.push('[');
+                for (i, x) in a.iter().enumerate() {
+                    if i > 0 {
+                        out.push(',');
+                    }
+                    go(x, out);
+                }
+                out.push(']');
+            }
+            other => out.push_str(&other.to_string()),
+        }
+    }
+    let mut s = String::new();
+    go(v, &mut s);
+    s
+}
